@@ -1597,3 +1597,98 @@ Section DiskRefines.
     - split; [apply disk_open_inv | constructor].
   Qed.
 End DiskRefines.
+
+(* ================================================================== DiskCache: len <= max_size, general form *)
+(* a <= b for max_size values, None = unbounded *)
+Definition opt_le (a b : option nat) : bool :=
+  match a, b with
+  | _, None => true
+  | None, Some _ => false
+  | Some x, Some y => x <=? y
+  end.
+
+(* Scanning the history: is `len <= max_size` guaranteed at its end?  It is at creation, after every put and
+   after clear; get / in / len keep it; re-opening keeps it iff it held and the new max_size is not smaller. *)
+Fixpoint settled {D} (flag : bool) (mx : option nat) (ops : list (dop D)) : bool * option nat :=
+  match ops with
+  | [] => (flag, mx)
+  | DOp (Put _ _ _) :: t => settled true mx t
+  | DOp Clear :: t => settled true mx t
+  | DOp _ :: t => settled flag mx t
+  | Reopen m :: t => settled (flag && opt_le mx m) m t
+  end.
+
+Section DiskBound.
+  Variable wl : bool.
+  Variable ls : nat.
+  Hypothesis Hls : wl = true -> 1 <= ls.
+
+  Definition bounded (st : disk) : Prop := forall n, d_max st = Some n -> length (d_files st) <= n.
+
+  Lemma disk_bound_gen : forall D (ops : list (dop D)) st flag,
+    disk_inv ls st -> (flag = true -> bounded st) ->
+    let st' := final (disk_step wl ls true) st ops in
+    d_max st' = snd (settled flag (d_max st) ops)
+    /\ (fst (settled flag (d_max st) ops) = true -> bounded st').
+  Proof.
+    intros D ops. unfold final. induction ops as [|o t IH]; intros st flag Hinv Hb; cbn [fold_left settled].
+    - cbn. auto.
+    - pose proof (disk_step_ok wl ls Hls D st o Hinv) as [Hinv' _].
+      destruct o as [[k v d|k|k| |]|m]; cbn [disk_step fst] in *.
+      + destruct (disk_put_spec wl ls Hls st k v Hinv) as (files' & l1 & E & _ & _ & Bd & _).
+        rewrite E in *. cbn [fst] in *. apply (IH _ true Hinv'). intros _ n Hn. cbn in *. auto.
+      + assert (E : d_files (fst (disk_get wl ls st k)) = d_files st /\ d_max (fst (disk_get wl ls st k)) = d_max st).
+        { unfold disk_get. destruct (wl && amem k (l_dict (d_lru st))).
+          - destruct (lru_get (d_lru st) k). cbn. auto.
+          - destruct (aget k (d_files st)); [|cbn; auto]. destruct wl; [|cbn; auto].
+            destruct (lru_put ls (d_lru st) k (fst p)). cbn. auto. }
+        destruct E as [E1 E2]. rewrite <- E2. apply (IH _ flag Hinv').
+        intros Hf n Hn. rewrite E1. apply (Hb Hf). congruence.
+      + apply (IH _ flag Hinv' Hb).
+      + apply (IH _ flag Hinv' Hb).
+      + apply (IH _ true Hinv'). intros _ n Hn. cbn. lia.
+      + apply (IH _ (flag && opt_le (d_max st) m) Hinv'). cbn [disk_open d_max d_files].
+        intros Hf n Hn. cbn in Hn. apply andb_prop in Hf. destruct Hf as [Hf Hle]. subst m.
+        destruct (d_max st) as [n0|] eqn:E0; cbn in Hle; [|discriminate].
+        apply Nat.leb_le in Hle. specialize (Hb Hf n0 E0). cbn. lia.
+  Qed.
+
+  (* disk_bound, general: whenever the scan says "settled", len <= max_size; no hypothesis on the Reopens *)
+  Theorem disk_bound_general : forall D m0 (ops : list (dop D)),
+    let st := final (disk_step wl ls true) (disk_open [] 0 m0) ops in
+    d_max st = snd (settled true m0 ops)
+    /\ (fst (settled true m0 ops) = true -> forall n, d_max st = Some n -> length (d_files st) <= n).
+  Proof.
+    intros D m0 ops. apply (disk_bound_gen D ops (disk_open [] 0 m0) true (disk_open_inv ls m0)).
+    intros _ n _. cbn. lia.
+  Qed.
+
+  Lemma settled_after_put : forall D (ops2 : list (dop D)) flag mx,
+    (forall o, In o ops2 -> match o with Reopen _ => False | DOp _ => True end) ->
+    flag = true -> fst (settled flag mx ops2) = true.
+  Proof.
+    intros D ops2. induction ops2 as [|o t IH]; intros flag mx Hno Hf; cbn; auto.
+    assert (Ht : forall o, In o t -> match o with Reopen _ => False | DOp _ => True end)
+      by (intros; apply Hno; now right).
+    destruct o as [[k v d|k|k| |]|m]; auto. exfalso. apply (Hno (Reopen m)). now left.
+  Qed.
+
+  Lemma settled_app : forall D (ops1 ops2 : list (dop D)) flag mx,
+    settled flag mx (ops1 ++ ops2) = settled (fst (settled flag mx ops1)) (snd (settled flag mx ops1)) ops2.
+  Proof.
+    intros D ops1. induction ops1 as [|o t IH]; intros ops2 flag mx; cbn; auto.
+    destruct o as [[k v d|k|k| |]|m]; auto.
+  Qed.
+
+  (* in particular: after ANY history (e.g. a reopen with a smaller max_size that left too many files) the
+     bound holds from the next put on, until the directory is re-opened again *)
+  Theorem disk_bound_after_put : forall D m0 (ops1 ops2 : list (dop D)) k v d,
+    (forall o, In o ops2 -> match o with Reopen _ => False | DOp _ => True end) ->
+    let st := final (disk_step wl ls true) (disk_open [] 0 m0) (ops1 ++ DOp (Put k v d) :: ops2) in
+    forall n, d_max st = Some n -> length (d_files st) <= n.
+  Proof.
+    intros D m0 ops1 ops2 k v d Hno st.
+    destruct (disk_bound_general D m0 (ops1 ++ DOp (Put k v d) :: ops2)) as [_ Hb]. apply Hb.
+    rewrite settled_app. cbn [settled]. now apply settled_after_put.
+  Qed.
+End DiskBound.
